@@ -154,11 +154,10 @@ def handleBundler (j : Json) : Json :=
   let ops? := (getArr j "ops").map opOf
   if ops?.any Option.isNone then Json.mkObj [("error", "bad-op")] else
   let ops := ops?.filterMap id
-  let r0 := openRun (cfgOf j) 0 (envOf j)
-  let r0 := { r0 with st := { r0.st with dets := detsOf j } }
-  let (sf, tr) := runFrom w r0.st ops
-  Json.mkObj [("open", jList docJson r0.docs), ("entries", jList entryJson tr),
-              ("admissible", Json.bool (admissibleFrom w r0.st ops)), ("final", finalJson sf)]
+  let s0 := { openRun (cfgOf j) 0 (envOf j) with dets := detsOf j }
+  let (sf, tr) := runFrom w s0 ops
+  Json.mkObj [("open", jList docJson s0.out), ("entries", jList entryJson tr),
+              ("admissible", Json.bool (admissibleFrom w s0 ops)), ("final", finalJson sf)]
 
 def msgOf (j : Json) : Option GMsg :=
   match getStr j "cmd" with
